@@ -154,9 +154,11 @@ def judge(case, impl, model):
         import json
         return "dump(build(decl)) != decl: " + json.dumps(impl["abstraction_mismatch"])[:800], []
     msg = None
-    if case.get("via") and model.get("clsName") != impl.get("cls_name_real"):
-        msg = (f"class name: typedpy calls the class {impl.get('cls_name_real')!r}, the model (Lean derivedName) "
-               f"{model.get('clsName')!r} for {case['via']} of {case['cls']['name']!r}")
+    if case.get("via") and model.get("clsNameWordModel") is not None and \
+            model.get("clsNameWordModel") != model.get("clsNameWordReal"):
+        msg = (f"class name: typedpy calls the class {impl.get('cls_name_real')!r} (in [\\w.]+: {model.get('clsNameWordReal')}), "
+               f"the model (Lean derivedName) {model.get('clsNameModel')!r} (in [\\w.]+: {model.get('clsNameWordModel')}) "
+               f"for {case['via']} of {case['cls']['name']!r}")
     if case["mode"] == "construct" and (model.get("flat") or model.get("path")):
         msg = msg or S.construct_correspondence(case, impl, model)
     if case["mode"] == "deser" and (model.get("flat") or model.get("path")):
